@@ -47,14 +47,21 @@ def build_block(jb, bits):
 
 
 def build_context(cfg):
-    """cfg = {zero:0/1, map:{c,d,h,i -> block id}, blocks:{id -> block json}} -> (slave context, {id: block})"""
+    """cfg = {zero:0/1, map:{c,d,h,i -> block id}, blocks:{id -> block json}, omit:[tables left to the context's own default]}
+    -> (slave context, {id: block}).  A table listed in `omit` is not passed to ModbusSlaveContext at all: the context must then
+    provide its documented default (a private, fully populated, zeroed sequential block), which is what the model cfg describes."""
     blocks = {}
+    omit = set(cfg.get("omit", []))
     for t in TABLES:
         bid = cfg["map"][t]
+        if t in omit:
+            continue
         if bid not in blocks:
             blocks[bid] = build_block(cfg["blocks"][bid], bits=t in ("c", "d"))
-    kw = {KW[t]: blocks[cfg["map"][t]] for t in TABLES}
+    kw = {KW[t]: blocks[cfg["map"][t]] for t in TABLES if t not in omit}
     ctx = ModbusSlaveContext(zero_mode=bool(cfg["zero"]), **kw)
+    for t in omit:
+        blocks[cfg["map"][t]] = ctx.store[t]          # observe the block the context created itself
     return ctx, blocks
 
 
@@ -251,6 +258,13 @@ def real_layouts(rng):
         L.append(layout(zero, sparse_block(ks), sparse_block(ks, 1), sparse_block(ks), sparse_block(ks, 9)))
         L.append(layout(zero, seq_block(0, 2500), None, seq_block(0, 400), None, shared=True))
         L.append(layout(zero, seq_block(0, 65536), seq_block(0, 100), seq_block(0, 65536), seq_block(0, 100)))
+        # tables left to the context's default (ModbusSequentialDataBlock.create(): 65536 zeroed cells, one block per table)
+        d1 = layout(zero, seq_block(0, 65536), seq_block(0, 65536), seq_block(0, 65536), seq_block(0, 65536))
+        d1["omit"] = ["c", "d", "h", "i"]
+        L.append(d1)
+        d2 = layout(zero, seq_block(0, 300), seq_block(0, 65536), seq_block(5, 200), seq_block(0, 65536))
+        d2["omit"] = ["d", "i"]
+        L.append(d2)
     return L
 
 
